@@ -26,6 +26,8 @@ fn first_of<'a>(n: RefNode<'a>, pred: &dyn Fn(&RefNode<'a>) -> bool) -> Option<R
 pub const TRACKED: &[&str] = &[
     "ModuleDeclarationAnsi",
     "ModuleDeclarationNonansi",
+    "ModuleDeclarationWildcard",
+    "InterfaceDeclarationWildcard",
     "InterfaceDeclarationAnsi",
     "InterfaceDeclarationNonansi",
     "ProgramDeclarationAnsi",
@@ -69,6 +71,10 @@ pub fn observe<'a, I: IntoIterator<Item = RefNode<'a>>>(it: I, text: &'a str) ->
         match &n {
             RefNode::ModuleDeclarationAnsi(_) => push("ModuleDeclarationAnsi", sub_ident(&n, text, |x| matches!(x, RefNode::ModuleIdentifier(_)))),
             RefNode::ModuleDeclarationNonansi(_) => push("ModuleDeclarationNonansi", sub_ident(&n, text, |x| matches!(x, RefNode::ModuleIdentifier(_)))),
+            RefNode::ModuleDeclarationWildcard(_) => push("ModuleDeclarationWildcard", sub_ident(&n, text, |x| matches!(x, RefNode::ModuleIdentifier(_)))),
+            RefNode::InterfaceDeclarationWildcard(_) => {
+                push("InterfaceDeclarationWildcard", sub_ident(&n, text, |x| matches!(x, RefNode::InterfaceIdentifier(_))))
+            }
             RefNode::InterfaceDeclarationAnsi(_) => push("InterfaceDeclarationAnsi", sub_ident(&n, text, |x| matches!(x, RefNode::InterfaceIdentifier(_)))),
             RefNode::InterfaceDeclarationNonansi(_) => {
                 push("InterfaceDeclarationNonansi", sub_ident(&n, text, |x| matches!(x, RefNode::InterfaceIdentifier(_))))
